@@ -105,7 +105,7 @@ pub fn tiny_spec(enc: Enc, order: TableOrder) -> (Spec, TinyTruth) {
 
     // .dynamic: DT_NEEDED, DT_HASH, a negative tag, DT_NULL
     let mut dynamic = Vec::new();
-    for (tag, val) in [(1u64, 1u64), (4, 0x400), (0xffff_ffff_ffff_fffdu64, 7), (0, 0)] {
+    for (tag, val) in [(1u64, 1u64), (14, 1), (0xffff_ffff_ffff_fffdu64, 7), (0, 0)] {
         dynamic.extend_from_slice(&encode(Kind::Dyn, enc, &[tag, val], 0));
     }
 
@@ -123,7 +123,7 @@ pub fn tiny_spec(enc: Enc, order: TableOrder) -> (Spec, TinyTruth) {
         enc.order,
         8,
         &[
-            NoteSpec { n_type: 5, name: b"GNU\0".to_vec(), desc: vec![9, 9, 9, 9, 9, 9, 9, 9, 9, 9, 9, 9] },
+            NoteSpec { n_type: 0x101, name: b"GNU\0".to_vec(), desc: vec![9, 9, 9, 9, 9, 9, 9, 9, 9, 9, 9, 9] },
             NoteSpec { n_type: 3, name: b"GNU\0".to_vec(), desc: vec![0xaa; 20] },
         ],
         0,
@@ -172,10 +172,10 @@ pub fn tiny_spec(enc: Enc, order: TableOrder) -> (Spec, TinyTruth) {
     ];
     spec.secs = secs;
     spec.segs = vec![
-        Seg { p_type: PT_LOAD, flags: 5, vaddr: 0, paddr: 0, align: 0x1000, memsz_extra: 0x100, target: SegTarget::Range { offset: 0, filesz: 0x100 } },
-        Seg { p_type: PT_DYNAMIC, flags: 6, vaddr: 0x400, paddr: 0x400, align: 8, memsz_extra: 0, target: SegTarget::Section(DYNAMIC) },
-        Seg { p_type: PT_NOTE, flags: 4, vaddr: 0x500, paddr: 0x500, align: 4, memsz_extra: 4, target: SegTarget::Section(NOTE_A) },
-        Seg { p_type: PT_NOTE, flags: 4, vaddr: 0x600, paddr: 0x600, align: 8, memsz_extra: 0, target: SegTarget::Section(NOTE_B) },
+        Seg { p_type: PT_LOAD, flags: 5, vaddr: 0, paddr: 0, align: 0x1000, memsz_extra: 0x100, target: SegTarget::Range { offset: 0, filesz: 0x700 } },
+        Seg { p_type: PT_DYNAMIC, flags: 6, vaddr: 0, paddr: 0, align: 8, memsz_extra: 0, target: SegTarget::Section(DYNAMIC) },
+        Seg { p_type: PT_NOTE, flags: 4, vaddr: 0, paddr: 0, align: 4, memsz_extra: 4, target: SegTarget::Section(NOTE_A) },
+        Seg { p_type: PT_NOTE, flags: 4, vaddr: 0, paddr: 0, align: 8, memsz_extra: 0, target: SegTarget::Section(NOTE_B) },
     ];
     (spec, TinyTruth { dyn_names, sym_names, symoffset: g.symoffset, ver })
 }
